@@ -37,11 +37,55 @@ PROPS = {
     ),
 }
 
+PROPS["C08"] = dict(
+    MIGRATE,
+    runs={
+        "quick": [
+            dict(harness="VerifHarness_C08_free3", reach=["ok", "error", "stmt"], flags=["-domain"]),
+            dict(harness="VerifHarness_C08_hdr2", reach=["ok", "stmt"]),
+            dict(harness="VerifHarness_C08_pre1", reach=["ok", "error", "stmt"]),
+            dict(harness="VerifHarness_C08_suf1", reach=["ok", "stmt"]),
+            dict(harness="VerifHarness_C08_symopts1", reach=["ok", "stmt"]),
+        ],
+        "thorough": [
+            dict(harness="VerifHarness_C08_free3", reach=["ok", "error", "stmt"]),
+            dict(harness="VerifHarness_C08_free4", reach=["ok", "error", "stmt"], flags=["-domain"], cross=False),
+            dict(harness="VerifHarness_C08_free4my", reach=["ok", "error", "stmt"], flags=["-domain"], cross=False),
+            dict(harness="VerifHarness_C08_free4pg", reach=["ok", "error", "stmt"], flags=["-domain"], cross=False),
+            dict(harness="VerifHarness_C08_free4ts", reach=["ok", "error", "stmt"], flags=["-domain"], cross=False),
+            dict(harness="VerifHarness_C08_hdr3", reach=["ok", "stmt"]),
+            dict(harness="VerifHarness_C08_pre2", reach=["ok", "error", "stmt"], flags=["-domain"], cross=False),
+            dict(harness="VerifHarness_C08_suf2", reach=["ok", "stmt"], flags=["-domain"], cross=False),
+            dict(harness="VerifHarness_C08_symopts2", reach=["ok", "stmt"], flags=["-domain"], cross=False),
+        ],
+    },
+    bounds={
+        "quick": "all inputs of 3 fully symbolic bytes (0..255) x the 5 driver option sets; atlas:delimiter header + 2 free bytes; "
+                 "18 feature prefixes (DELIMITER, BEGIN, $$, GO, comments, quotes...) + 1 free byte x 5 option sets; BEGIN + 1 free byte + 6 closers; "
+                 "all 2^10 option sets (symbolic booleans) on 1 free byte",
+        "thorough": "all inputs of 4 fully symbolic bytes for the default/MySQL/PostgreSQL/T-SQL option sets, 3 bytes for all five; header + 3; "
+                    "prefixes + 2 free bytes; BEGIN + 2 free bytes + closers; symbolic option set on 2 free bytes",
+    },
+    assumptions=[
+        "runs flagged -domain decide branches over a single byte variable by exact enumeration of that byte's 256 values before asking z3 "
+        "(a sound pre-solver simplification); all other branches and all assertions are z3 queries",
+        "FileReport.Line(pos) = 1 + count of newlines in Text[:pos] (cmd/atlas/internal/migratelint/lint_oss.go): line accuracy follows from "
+        "position accuracy, which is what is asserted",
+    ],
+    outside="inputs with more free bytes than the bound; interactions needing more free bytes after a prefix",
+    claim="For every input within the bounds (every byte value at every position, five driver option sets and all 1024 option combinations), "
+          "the real Scanner.Scan terminates without panic and either errors or returns statements whose text is exactly input[Pos:Pos+len], "
+          "in increasing non-overlapping order, with everything dropped in between classified as blank/comment/delimiter/delimiter command by an "
+          "independent classifier. Inputs are fully symbolic bytes, so each explored path is a class of inputs decided by the solver.",
+    note="Bounded by input length (see evidence.bounds). The gap classifier in harness/migrate/zz_verif_c08.go is the oracle for 'nothing is "
+         "silently dropped' and is trusted; regexp matching on symbolic bytes is the engine's backtracking matcher over regexp/syntax programs.",
+)
+
 NOT_APPLICABLE = {
     "C01": "needs a real SQLite engine executing the planned SQL and pragma-based inspection; neither cgo code nor SQLite's DDL "
            "semantics can be encoded by an SSA-level symbolic executor, and a hand-written catalogue model would verify the model, not Atlas "
            "(the reachable code-level pieces are claimed under C02, C03, C05)",
 }
-for _p in ["C02","C03","C04","C05","C06","C07","C08","C09","C10","C11","C13","C14","C15","C16","C17","C18","C19","C20"]:
+for _p in ["C02","C03","C04","C05","C06","C07","C09","C10","C11","C13","C14","C15","C16","C17","C18","C19","C20"]:
     NOT_APPLICABLE.setdefault(_p, "check not built yet in this session (planned, see DESIGN.md section 5)")
 
